@@ -1,7 +1,7 @@
 //! C01 — a program yields what its source denotes. Reference interpreter vs. the real pipeline.
 
 use super::Families;
-use crate::ast::{shape_hash, Stmt};
+use crate::ast::{infix, shape_hash, Expr, Op, Stmt};
 use crate::diff::{differential, missing_opcodes, Verdict};
 use crate::enumerate::Enumerator;
 use crate::gen::{random_program, PROFILES};
@@ -113,8 +113,42 @@ impl C01 {
         for p in PROFILES {
             f.push((p.name(), per_profile));
         }
+        f.push(("operator-grouping", if ctx.flavour == Flavour::Rel { GROUPING_TOTAL } else { 2_000 }));
         Families::new(f)
     }
+}
+
+const G_OPS: [Op; 13] = [Op::Add, Op::Subtract, Op::Multiply, Op::Divide, Op::Modulo, Op::Lt, Op::Lte, Op::Gt, Op::Gte, Op::Eq, Op::Neq, Op::And, Op::Or];
+const GROUPING_TOTAL: u64 = 13 * 13 * 2 * 216;
+
+fn g_atom(k: u64) -> Expr {
+    match k {
+        0 => Expr::Int(7),
+        1 => Expr::Int(2),
+        2 => Expr::Bool(true),
+        3 => Expr::Bool(false),
+        4 => Expr::Float(1.5),
+        _ => Expr::Str("ab".to_string()),
+    }
+}
+
+/// `(x op1 y) op2 z` or `x op1 (y op2 z)` over every pair of binary operators and every operand triple of a pool
+/// of six atoms. The tree is the HARNESS's: the reference evaluates it as built, the text is printed with the
+/// parentheses the specified precedence table requires and no others. (The random families evaluate the tree the
+/// real parser returned, so they cannot see a wrong grouping; this family — like C07 at tree level — can, at the
+/// level of the result.)
+fn grouping_case(i: u64) -> Vec<Stmt> {
+    let (mut k, c) = (i / 6, i % 6);
+    let b = k % 6;
+    k /= 6;
+    let a = k % 6;
+    k /= 6;
+    let right_nested = k % 2 == 1;
+    k /= 2;
+    let op2 = G_OPS[(k % 13) as usize];
+    let op1 = G_OPS[((k / 13) % 13) as usize];
+    let e = if right_nested { infix(g_atom(a), op1, infix(g_atom(b), op2, g_atom(c))) } else { infix(infix(g_atom(a), op1, g_atom(b)), op2, g_atom(c)) };
+    vec![Stmt::Expr(e)]
 }
 
 pub fn default_cfg(ctx: &Ctx) -> ObsCfg {
@@ -194,6 +228,23 @@ impl Check for C01 {
             }
             return;
         }
+        if fam == "operator-grouping" {
+            let (_, _, i) = self.fams(ctx).locate(idx);
+            let i = if ctx.flavour == Flavour::Rel { i } else { (i * 7919 + ctx.seed) % GROUPING_TOTAL };
+            let tree = grouping_case(i);
+            let r = crate::refsem::run_program(&tree, 10_000);
+            let o = eval_observed(&text, &cfg);
+            st.evaluations += 1;
+            st.count("programs:operator-grouping");
+            if matches!(r.outcome, crate::refsem::RefOutcome::Value(_)) {
+                st.count("operator-grouping:with-a-value");
+                st.distinct_hash(crate::rng::hash_str(&text));
+            }
+            if let Some((sig, detail)) = crate::diff::compare(&o, &r) {
+                st.violation(&format!("operator-grouping:{}", sig), detail, &text);
+            }
+            return;
+        }
         let d = differential(&text, &cfg, 300_000, st);
         st.count(&format!("programs:{}", fam));
         match d.verdict {
@@ -224,7 +275,7 @@ impl Check for C01 {
         let fams = me.fams(ctx);
         let skipped: u64 = merged.counters.iter().filter(|(k, _)| k.starts_with("skipped-unspecified")).map(|(_, v)| *v).sum();
         Summary {
-            rule: "case = one program text (directed corpus with documented outputs; bounded-exhaustive enumeration over a small vocabulary; seeded type-directed random programs in six profiles, 15 % with one injected fault). The real parser's tree is evaluated by the definitional interpreter of DESIGN.md §4 and value, captured output and error kind are compared with eval() under probes + quarantine shadow heap. distinct_nontrivial = distinct tree shapes (names and literals blanked) with a specified reference outcome that dispatched >= 20 instructions".to_string(),
+            rule: "case = one program text (directed corpus with documented outputs; bounded-exhaustive enumeration over a small vocabulary; every pair of binary operators in both nestings over every operand triple of six atoms, built as a harness tree and printed with only the parentheses the specified precedence table requires; seeded type-directed random programs in six profiles, 15 % with one injected fault). The real parser's tree is evaluated by the definitional interpreter of DESIGN.md §4 and value, captured output and error kind are compared with eval() under probes + quarantine shadow heap. distinct_nontrivial = distinct tree shapes (names and literals blanked) with a specified reference outcome that dispatched >= 20 instructions".to_string(),
             exhaustive: Some(true),
             extra: json!({
                 "exhaustive_parts": [format!("all programs of the enumerator up to node budget {} ({} programs)", C01::enum_budget(ctx), fams.fams[1].1)],
@@ -256,6 +307,10 @@ impl C01 {
             "enumerated" => {
                 let p = self.enumerated(ctx)[i as usize].clone();
                 (name, to_text(&p))
+            }
+            "operator-grouping" => {
+                let i = if ctx.flavour == Flavour::Rel { i } else { (i * 7919 + ctx.seed) % GROUPING_TOTAL };
+                (name, to_text(&grouping_case(i)))
             }
             _ => {
                 let mut r = Rng::for_case(ctx.seed, 100 + f as u64, i);
